@@ -307,9 +307,21 @@ def rand_elem(rng, ty, small=False):
 
 def rand_array(rng, ty, n, style=None):
     """n elements of type ty in one of several shapes (runs, all equal, all distinct, alternating)."""
-    style = style or rng.choice(["runs", "runs", "equal", "alt", "random", "small"])
+    style = style or rng.choice(["runs", "runs", "equal", "alt", "random", "small"] + (["nulfam", "nulfam"] if ty in (STRING, BINARY) else []))
     if n == 0:
         return []
+    if style == "nulfam":
+        # neighbours that agree up to an embedded NUL (same and different lengths): what strcmp/strlen-style code confuses
+        p = rng.choice([b"", b"a", b"abc", b"xy"])
+        a, b = rng.sample([b"d", b"e", b"dd", b"\x01", b"z"], 2)
+        fam = [p, p + b"\0", p + b"\0" + a, p + b"\0" + b, p + b"\0\0", p + b"\0" + a + b"\0", b"", b"\0"]
+        fam = rng.sample(fam, rng.choice([2, 3, 4, 8]))
+        if rng.random() < 0.5:
+            return [rng.choice(fam) for _ in range(n)]
+        out = []
+        while len(out) < n:
+            out += [rng.choice(fam)] * rng.choice([1, 1, 2, 3])
+        return out[:n]
     if style == "equal":
         e = rand_elem(rng, ty); return [e] * n
     if style == "alt":
